@@ -195,6 +195,7 @@ def ob_generics(run, mir, rp, fam):
         raise Unsupported("accumulator local all_generic_super not found")
     n_acc = int(dbg[1:])
     claims, n_body = [], 0
+    null_claims = []
     for p in ends:
         if p.kind != "loop_back":
             continue
@@ -211,11 +212,40 @@ def ob_generics(run, mir, rp, fam):
         hv = ex.project(s, ex.project(s, hps[-1]["ret"], ("v", "Ok")), ("f", 0), "bool")
         if acc0 is None or not z3.is_bool(acc1):
             claims.append(z3.Not(conj(p.cond)))
-        else:
-            claims.append(z3.Implies(conj(p.cond), acc1 == z3.And(acc0, hv)))
+            continue
+        # the member of self's generic argument that is looked at in this iteration, and whether the other argument admits None
+        nx = calls(p, "Iterator::next")
+        member = ex.project(s, ex.project(s, nx[-1]["ret"], ("v", "Some")), ("f", 0), "&TrueName") if nx else None
+        tnf = e2.rust_struct("src/check/name/true_name/mod.rs", "TrueName")
+        s_null = ex.project(s, member, ("f", tnf.index("is_nullable")), "bool") if member is not None else None
+        o_null = [e_["ret"] for e_ in p.events if e_["name"].split("::")[-1] == "is_nullable" and z3.is_bool(e_["ret"])]
+        null_ok = z3.BoolVal(True)
+        if s_null is not None and z3.is_bool(s_null):
+            null_ok = z3.Or(z3.Not(s_null), *o_null)
+        claims.append(z3.Implies(conj(p.cond), z3.And(z3.Implies(acc1, z3.And(acc0, hv)), z3.Implies(z3.And(acc0, hv, null_ok), acc1))))
+        null_claims.append(z3.Implies(conj(p.cond), z3.Implies(acc1, null_ok)) if s_null is not None and z3.is_bool(s_null) else z3.Not(conj(p.cond)))
     if not n_body:
         raise Unsupported("generics loop body not reached")
     e2.prove_each(run, ob, ex, [], claims, {}, fam.as_replay("generics:", only=["tuple-", "generic-"]))
+    ob2 = run.ob("generic-arguments-keep-nullability", "E2", "Class::has_parent(&StringName), the same loop: a NULLABLE member of self's generic argument only counts as a "
+                 "subtype when the other generic argument admits None - List[Int?] is not a List[Int] (a variable of type Int? inside a list literal must not "
+                 "initialise a List[Int])", ["Class::has_parent(&StringName) (generics loops)"])
+    gf = e2.Family(rp)
+    gf.add("list-of-nullable-variable-into-list", "def y: Int? := None\ndef l: List[Int] := [y]", "reject")
+    gf.add("list-with-nullable-variable-into-list", "def y: Int? := None\ndef l: List[Int] := [1, y]", "reject")
+    gf.add("set-with-nullable-variable-into-set", "def y: Int? := None\ndef l: Set[Int] := {1, y}", "reject")
+    gf.add("tuple-with-nullable-variable-into-tuple", "def y: Int? := None\ndef t: (Int, Int) := (1, y)", "reject")
+    gf.add("inferred-list-element-into-int", "def y: Int? := None\ndef l := [1, y]\ndef z: Int := l[0]", "reject")
+    gf.add("list-of-int-into-list", "def y: Int := 2\ndef l: List[Int] := [1, y]", "accept")
+    gf.add("tuple-of-int-into-tuple", "def y: Int := 2\ndef t: (Int, Int) := (1, y)", "accept")
+    gf.add("list-literal-none-into-list", "def l: List[Int] := [1, None]", "reject")
+    e2.prove_each(run, ob2, ex, [], null_claims, {}, gf.as_replay("generic-nullability:"))
+    if ob2.status == "discharged":
+        k_, bad = gf.run()
+        run.validated += k_
+        if bad:
+            ob2.status = "pending"
+            ob2.inconclusive(f"family disagrees although the kernel is as specified: {bad[:2]}")
 
 
 def ob_name_superset(run, mir, rp, fam):
